@@ -2071,6 +2071,85 @@ func (w *World) PathTuples(ret *ssa.Return, maxPaths int) ([][]*Expr, bool) {
 	}
 	var out [][]*Expr
 	ok := true
+	// the branch outcomes passed on the way back from the return, on verdict enumerations handed back by in-scope helpers
+	// (`switch verdict {case A: ...; case B: ...}` with no default): a path on which the verdict is none of the constants
+	// its helper can return is not a path
+	type enumCons struct {
+		v    ssa.Value
+		k    string
+		same bool // v == k on this path (false: v != k)
+	}
+	var cons []enumCons
+	feasible := func() bool {
+		by := map[ssa.Value][]enumCons{}
+		for _, c := range cons {
+			by[c.v] = append(by[c.v], c)
+		}
+		for v, cs := range by {
+			set, known := w.enumReturnSet(v)
+			if !known {
+				continue
+			}
+			left := 0
+			for k := range set {
+				okk := true
+				for _, c := range cs {
+					if c.same && c.k != k || !c.same && c.k == k {
+						okk = false
+					}
+				}
+				if okk {
+					left++
+				}
+			}
+			if left == 0 {
+				return false
+			}
+		}
+		return true
+	}
+	addCons := func(p, blk *ssa.BasicBlock) {
+		if iff, isIf := p.Instrs[len(p.Instrs)-1].(*ssa.If); isIf && len(p.Succs) == 2 && p.Succs[0] != p.Succs[1] {
+			if bo, isB := iff.Cond.(*ssa.BinOp); isB && (bo.Op == token.EQL || bo.Op == token.NEQ) {
+				var ev ssa.Value
+				var ck *ssa.Const
+				if c1, okc := bo.Y.(*ssa.Const); okc {
+					ev, ck = bo.X, c1
+				} else if c1, okc := bo.X.(*ssa.Const); okc {
+					ev, ck = bo.Y, c1
+				}
+				if ck != nil && ck.Value != nil && ck.Value.Kind() == constant.Int {
+					truth := p.Succs[0] == blk
+					cons = append(cons, enumCons{v: ev, k: ck.Value.ExactString(), same: (bo.Op == token.EQL) == truth})
+				}
+			}
+		}
+	}
+	var reachesEntryFeasibly func(blk *ssa.BasicBlock, depth int) bool
+	onPath := map[*ssa.BasicBlock]bool{}
+	reachesEntryFeasibly = func(blk *ssa.BasicBlock, depth int) bool {
+		if len(blk.Preds) == 0 {
+			return feasible()
+		}
+		if depth > 24 || onPath[blk] {
+			return true // give up: keep the tuple
+		}
+		if !feasible() {
+			return false
+		}
+		onPath[blk] = true
+		defer delete(onPath, blk)
+		for _, p := range blk.Preds {
+			mark := len(cons)
+			addCons(p, blk)
+			r := reachesEntryFeasibly(p, depth+1)
+			cons = cons[:mark]
+			if r {
+				return true
+			}
+		}
+		return false
+	}
 	var walk func(blk *ssa.BasicBlock, from int, st []pend, depth int)
 	walk = func(blk *ssa.BasicBlock, from int, st []pend, depth int) {
 		if !ok {
@@ -2126,10 +2205,15 @@ func (w *World) PathTuples(ret *ssa.Return, maxPaths int) ([][]*Expr, bool) {
 					t[i] = &Expr{Op: "zero", Name: "unset"}
 				}
 			}
-			out = append(out, t)
+			// the values are resolved; the way from the entry to here may still contradict the verdicts tested so far
+			if reachesEntryFeasibly(blk, 0) {
+				out = append(out, t)
+			}
 			return
 		}
 		for k, p := range blk.Preds {
+			mark := len(cons)
+			addCons(p, blk)
 			next := append([]pend{}, cur...)
 			for i := range next {
 				if next[i].done == nil && next[i].phi != nil {
@@ -2149,10 +2233,55 @@ func (w *World) PathTuples(ret *ssa.Return, maxPaths int) ([][]*Expr, bool) {
 				}
 			}
 			walk(p, len(p.Instrs), next, depth+1)
+			cons = cons[:mark]
 		}
 	}
 	walk(ret.Block(), InstrIndex(ret), start, 0)
 	return out, ok
+}
+
+// enumReturnSet: v is the (enumeration-typed) result of an in-scope call all of whose success returns hand back a
+// constant there: the set of those constants.
+func (w *World) enumReturnSet(v ssa.Value) (map[string]bool, bool) {
+	var call *ssa.Call
+	ri := 0
+	switch x := v.(type) {
+	case *ssa.Call:
+		call = x
+	case *ssa.Extract:
+		c, ok := x.Tuple.(*ssa.Call)
+		if !ok {
+			return nil, false
+		}
+		call, ri = c, x.Index
+	default:
+		return nil, false
+	}
+	if _, named := v.Type().(*types.Named); !named {
+		return nil, false
+	}
+	g := w.PreferredCallee(call)
+	if g == nil || len(g.Blocks) == 0 || !w.inSet[g] {
+		return nil, false
+	}
+	set := map[string]bool{}
+	rets := Returns(g)
+	if ErrIndex(g) >= 0 {
+		if sr := w.SuccessReturns(g); len(sr) > 0 {
+			rets = sr
+		}
+	}
+	for _, r := range rets {
+		if ri >= len(r.Results) {
+			return nil, false
+		}
+		c, ok := r.Results[ri].(*ssa.Const)
+		if !ok || c.Value == nil || c.Value.Kind() != constant.Int {
+			return nil, false
+		}
+		set[c.Value.ExactString()] = true
+	}
+	return set, len(set) > 0
 }
 
 // GlobalName is the repo-relative name of a package-level variable.
